@@ -270,6 +270,9 @@ Proof.
     + injection H as <- <- <-. split; [eexists; reflexivity|]. intros look Hc.
       pose proof (consistent_at _ _ _ _ Hc) as H0. cbn [eval_task] in H0.
       cbn [lstep qmap option_map]. rewrite <- H0. destruct ws; reflexivity.
+  - (* accumulate, no state yet *)
+    injection H as <- <- <-. split; [exists []; rewrite app_nil_r; reflexivity|]. intros look Hc.
+    cbn. destruct ws; reflexivity.
   - (* partition *)
     destruct (part_step XTup n b x) as [b' o'] eqn:E. injection H as <- <- <-.
     split; [exists []; rewrite app_nil_r; reflexivity|]. intros look Hc. cbn [lstep qmap].
@@ -286,7 +289,7 @@ Theorem dask_map_equiv f q st x look :
   consistent look st' ->
   option_map (resolve look) o = Some (f (resolve look x)) /\ q' = q.
 Proof.
-  cbn [dstep]. intros Hc. rewrite (consistent_at _ _ _ _ Hc) by exact Hc. split; reflexivity.
+  destruct q as [|a|b]; cbn; intros Hc; rewrite (consistent_at _ _ _ _ Hc); split; reflexivity.
 Qed.
 
 Theorem dask_starmap_equiv f q st x look :
@@ -294,7 +297,7 @@ Theorem dask_starmap_equiv f q st x look :
   consistent look st' ->
   option_map (resolve look) o = Some (f (tup_items (resolve look x))) /\ q' = q.
 Proof.
-  cbn [dstep]. intros Hc. rewrite (consistent_at _ _ _ _ Hc) by exact Hc. split; reflexivity.
+  destruct q as [|a|b]; cbn; intros Hc; rewrite (consistent_at _ _ _ _ Hc); split; reflexivity.
 Qed.
 
 (* accumulate: with or without start (state = None: the first element becomes the state and passes
@@ -450,8 +453,9 @@ Proof.
   destruct q as [q|qa qb za zb]; cbn.
   - rewrite qmap_inject. reflexivity.
   - rewrite !map_map. cbn.
-    rewrite (map_ext _ (fun x => x) (qmap_inject look)), !map_id.
-    reflexivity.
+    assert (Hq : forall l : list (lst val), map (fun x => qmap (resolve look) (qmap XVal x)) l = l).
+    { induction l as [|h t IHl]; cbn; [reflexivity | rewrite qmap_inject, IHl; reflexivity]. }
+    rewrite !Hq, !map_id. reflexivity.
 Qed.
 
 Lemma drun_from_sim p : forall xs qs st qs' st' arr,
@@ -491,3 +495,116 @@ Qed.
 Corollary dask_equiv_force p xs st arr :
   drun p xs = (st, arr) -> wf_store st -> map (force st) arr = lrun p xs.
 Proof. intros H Hwf. apply (dask_equiv p xs st arr _ H). apply eval_store_consistent. exact Hwf. Qed.
+
+(* ---- reference counters of scatter / gather -------------------------------------------------------- *)
+Lemma remove1_length n l h : remove1 n l = Some h -> length l = S (length h).
+Proof.
+  revert h. induction l as [|a l IH]; intros h H; cbn in H; [discriminate|].
+  destruct (a =? n).
+  - injection H as <-. reflexivity.
+  - destruct (remove1 n l) as [h'|]; [|discriminate]. injection H as <-. cbn. rewrite (IH h' eq_refl). reflexivity.
+Qed.
+
+Lemma rc_step_excess w e : rc_excess (rc_step w e) = rc_excess w.
+Proof.
+  unfold rc_excess. destruct e as [n|n]; cbn [rc_step].
+  - cbn [rc_cnt rc_hold length]. lia.
+  - destruct (remove1 n (rc_hold w)) as [h|] eqn:E; [|reflexivity].
+    cbn [rc_cnt rc_hold]. rewrite (remove1_length _ _ _ E). lia.
+Qed.
+
+(* scatter and gather retain on entry and release after their downstream emission completed: for ANY
+   interleaving of entries and exits of any number of their coroutines, count - holders never changes *)
+Theorem dask_refs_balanced evs w : rc_excess (rc_run w evs) = rc_excess w.
+Proof.
+  unfold rc_run. revert w. induction evs as [|e t IH]; intros w; cbn [fold_left]; [reflexivity|].
+  rewrite IH. apply rc_step_excess.
+Qed.
+
+(* once no coroutine of the two nodes is in flight, the count is back to what the rest of the pipeline holds *)
+Corollary dask_refs_quiescent evs w :
+  rc_hold (rc_run w evs) = [] -> rc_cnt (rc_run w evs) = rc_excess w.
+Proof.
+  intros H. pose proof (dask_refs_balanced evs w) as E. unfold rc_excess in E at 1. rewrite H in E. cbn in E. lia.
+Qed.
+
+(* while a scatter / gather coroutine is still waiting (for the cluster, or for its downstream), the count
+   is positive, so RefCounter.release cannot fire the callback *)
+Corollary dask_refs_not_early evs w :
+  (0 <= rc_excess w)%Z -> rc_hold (rc_run w evs) <> [] -> (0 < rc_cnt (rc_run w evs))%Z.
+Proof.
+  intros H0 Hne. pose proof (dask_refs_balanced evs w) as E. unfold rc_excess in E at 1.
+  destruct (rc_hold (rc_run w evs)) as [|a l]; [congruence|]. cbn [length] in E. lia.
+Qed.
+
+(* ---- gather: which waiting arrivals are emitted --------------------------------------------------- *)
+(* repaired gather: what is emitted is a prefix of what is waiting, in arrival order *)
+Lemma take_prefix_split f pend d r : take_prefix f pend = (d, r) -> pend = d ++ r.
+Proof.
+  revert d r. induction pend as [|x t IH]; intros d r H; cbn in H.
+  - injection H as <- <-. reflexivity.
+  - destruct (ready f x).
+    + destruct (take_prefix f t) as [d' r'] eqn:E. injection H as <- <-. cbn. rewrite (IH d' r' eq_refl). reflexivity.
+    + injection H as <- <-. reflexivity.
+Qed.
+
+(* gather as found: with at most one arrival waiting it behaves like the ordered one ... *)
+Lemma take_all_single f pend : length pend <= 1 -> take_all f pend = take_prefix f pend.
+Proof.
+  destruct pend as [|x [|y t]]; cbn [length]; intros H; [reflexivity| |lia].
+  cbn. destruct (ready f x); reflexivity.
+Qed.
+
+(* ... every emitted arrival has all its futures finished, so its value is the store's value *)
+Lemma take_all_ready f pend : Forall (fun x => ready f x = true) (fst (take_all f pend)).
+Proof.
+  induction pend as [|x t IH]; cbn; [constructor|].
+  destruct (take_all f t) as [d r]. destruct (ready f x) eqn:E; cbn in *; [constructor; assumption | exact IH].
+Qed.
+
+Lemma take_prefix_ready f pend : Forall (fun x => ready f x = true) (fst (take_prefix f pend)).
+Proof.
+  induction pend as [|x t IH]; cbn; [constructor|].
+  destruct (ready f x) eqn:E; [|constructor].
+  destruct (take_prefix f t) as [d r]. cbn in *. constructor; assumption.
+Qed.
+
+Lemma ready_value look f x : fin_ok look f -> ready f x = true -> resolve (fin_look f) x = resolve look x.
+Proof.
+  intros Hok Hr. apply resolve_ext. intros i Hi. apply (all_done_look look f (deps x)); assumption.
+Qed.
+
+(* what gather hands to the sink is the store's value of the arrival, whatever the completion order was *)
+Theorem gather_delivers_forced look f pend ordered :
+  fin_ok look f ->
+  let d := fst ((if ordered : bool then take_prefix else take_all) f pend) in
+  map (resolve (fin_look f)) d = map (resolve look) d.
+Proof.
+  intros Hok d. assert (Hr : Forall (fun x => ready f x = true) d).
+  { subst d. destruct ordered; [apply take_prefix_ready | apply take_all_ready]. }
+  induction Hr as [|x t Hx Ht IH]; cbn; [reflexivity|].
+  rewrite (ready_value look f x Hok Hx), IH. reflexivity.
+Qed.
+
+(* ---- the fan-in case: gather as found reorders, the ordered gather does not ------------------------ *)
+Definition ex_union_cfg (ordered : bool) : cfg :=
+  {| c_pre := [];
+     c_post := [SUnion [LMap (fun v => match v with VInt z => VInt (z + 1)%Z | _ => VNone end)]
+                       [LMap (fun v => match v with VInt z => VInt (2 * z)%Z | _ => VNone end)]];
+     c_ordered := ordered |}.
+(* one awaited emit; the cluster finishes the second branch's task first *)
+Definition ex_union_evs : list event := [EEmit (VInt 5%Z); EDone 2; EDone 1].
+
+Theorem dask_order_fanin_refuted :
+  exists c evs xs, c_ordered c = false /\
+    w_pend (exec c evs) = [] /\ w_queue (exec c evs) = [] /\
+    w_out (exec c evs) <> lrun (stages_of c false) xs /\
+    w_out (exec c evs) = [VInt 10%Z; VInt 6%Z] /\ lrun (stages_of c false) xs = [VInt 6%Z; VInt 10%Z].
+Proof.
+  exists (ex_union_cfg false), ex_union_evs, [VInt 5%Z].
+  repeat split; try (vm_compute; reflexivity). vm_compute. discriminate.
+Qed.
+
+Theorem dask_order_fanin_repaired :
+  w_out (exec (ex_union_cfg true) ex_union_evs) = lrun (stages_of (ex_union_cfg true) false) [VInt 5%Z].
+Proof. vm_compute. reflexivity. Qed.
